@@ -139,8 +139,30 @@ PROPS["C18"] = {
 ENGINES.append({"name": "gc", "path": "overlay/cmd/partial-aftersun", "serves_properties": ["C18"],
     "kind_free_text": "in-package harness of cmd/partial-aftersun over directories produced by the real sequencer and LocalBackend"})
 
+READ_REAL = ["cmd/skylight: the built binary (routing, headers, os.Root-confined file server, /health aggregation) over loopback; checkLog and witnessHealth.{loadVerifiers,hashes,check} in-package", "directories written by the real sequencer, the real witness/mirror handlers and LocalBackend", "sunlight.Client reading the log through the server"]
+PROPS["C19"] = {
+    "engine": "read", "quick_budget": 50, "thorough_budget": 600,
+    "level_note": "The property has no schedule, clock or fault in it: it is a statement about every request path and directory. The server therefore runs as the built binary over loopback, outside the scheduler; what the simulation side contributes is the directories (real sequencer / witness / LocalBackend histories around tile boundaries, host-only and path-prefixed prefixes, witness and mirror trees) and a seeded adversarial request set. Requests carry a contact address, so the anonymous-client rate limiter (real time) never answers; the 429 path is not claimed. ACME/TLS wiring is not run (plain HTTP on loopback).",
+    "level_text": "For each generated directory set the built skylight binary is started and asked for every path of the Static CT / witness / mirror layout (reference tile list for the size, issuers, metadata) plus traversal attempts, encoded dots and separators, doubled slashes, directories, dot-files, symlinks pointing outside, stray files, foreign hosts and prefixes; oracle: a 200 body is byte-for-byte the regular file inside the configured directory that the cleaned path names, never a listing, never outside; every layout path whose file exists answers 200 with the prescribed content type, gzip encoding and cache policy; an unmodified sunlight.Client verifies the whole log through the server. Exploration over inputs, stated as such.",
+    "expect_probes": ["served.ok", "client.verified", "requests.hostile", "status.400", "status.300"],
+    "real": READ_REAL, "stubbed": ["network: loopback TCP to the real binary (not scheduled)", "lock store for the generated logs: in-memory map"],
+    "assumptions": ["no concurrent writer to the directories while they are served", "sampling: a clean batch is evidence, not proof"],
+    "rule": "one evaluation = one generated set of directories served by the real binary and probed with the layout paths plus a seeded hostile request set; non-trivial = at least one hostile request was sent; distinct = distinct profile (sizes, witness/mirror, prefix shape) hash",
+}
+PROPS["C20"] = {
+    "engine": "read", "quick_budget": 50, "thorough_budget": 600,
+    "level_note": "Trusted: the health predicate the harness derives by construction (each case breaks known conditions). Real: checkLog and witnessHealth run in-package inside a synctest bubble, so the 5 s freshness bound and the read-only date (limit + 1 week + 3 s) are crossed on the fake clock, on directories written by the real sequencer and witness at simulated instants; /health aggregation (staging, naming the log) through the built binary on a sixth of the runs, with read-only logs as the healthy ones so that the verdict does not depend on wall-clock freshness.",
+    "level_text": "Log states: healthy, stale by 5.1 s / much more, exactly 4.9 s and 5.0 s old, re-signed by another key, renamed origin, truncated or missing checkpoint, missing/garbage metadata, bad key, extension line; past the read-only date with matching final tree, mismatching root/size/timestamp, no final tree, and exactly at the grace boundary. Witness/mirror states: checkpoint under the wrong hash directory, unknown or empty verifier keys, mirror ahead of the pending checkpoint, right-edge tile missing or corrupt, pending checkpoint missing, mirror metadata missing. Oracle: green iff the constructed state satisfies every condition; a red /health names the broken log and ignores staging entries.",
+    "expect_probes": ["case.stale-5.1", "case.fresh-5.0", "case.sunset-ok", "case.sunset-boundary", "wcase.mirror-ahead", "wcase.edge-corrupt", "health.aggregate.ok"],
+    "real": READ_REAL, "stubbed": ["clock: testing/synctest (in-package part)", "lock store for the generated logs: in-memory map"],
+    "assumptions": ["sampling: a clean batch is evidence, not proof"],
+    "rule": "one evaluation = one run of 12-22 constructed directory states judged by the health functions on the fake clock (or one /health query of the binary over 2-4 logs); non-trivial = at least one state with a broken condition; distinct = distinct profile hash",
+}
+ENGINES.append({"name": "read", "path": "overlay/cmd/skylight + overlay/verifsim/dirgen", "serves_properties": ["C19", "C20"],
+    "kind_free_text": "built skylight binary over loopback and in-package health functions on the fake clock, over directories from real sequencing/witness runs"})
+
 NOT_APPLICABLE = {
     "C10": "pure function of its input (codec bijections): no schedule, clock, fault, I/O or second party for a simulator to control; deciding it is input generation (property-based testing), which is outside this technique. See DESIGN.md §6.",
 }
-for _p in ["C09", "C19", "C20"]:
+for _p in ["C09"]:
     NOT_APPLICABLE[_p] = "not claimed yet: the simulator for this property is still being built (see DESIGN.md §5 for the plan)"
